@@ -84,7 +84,19 @@ func rewriteClock(src, dst string) (int, error) {
 	if err := printer.Fprint(&buf, fset, f); err != nil {
 		return 0, err
 	}
-	return n, os.WriteFile(dst, buf.Bytes(), 0644)
+	out := buf.Bytes()
+	if strings.HasSuffix(src, "blockchain/blockchain.go") {
+		// genesis hook (instrumentation, overlay only): after the genesis allocation a harness may shape the genesis state
+		// (several shards, flip history ...) identically on every replica; blockchain.VerifGenesisHook is declared in the
+		// common shim.  Without the anchor line the hook is simply absent (VerifGenesisHookSite stays false).
+		anchor := []byte("chain.appState.State.SetGodAddress(chain.config.GenesisConf.GodAddress)")
+		if i := bytes.Index(out, anchor); i >= 0 {
+			ins := []byte("\n\tVerifGenesisHookSite = true\n\tif VerifGenesisHook != nil {\n\t\tVerifGenesisHook(chain.appState)\n\t}\n")
+			out = append(out[:i+len(anchor)], append(ins, out[i+len(anchor):]...)...)
+			n++
+		}
+	}
+	return n, os.WriteFile(dst, out, 0644)
 }
 
 func main() {
